@@ -38,10 +38,29 @@ class Resp:
         return f"<Resp {self.status} {self.headers!r} {self.body[:200]!r}>"
 
 
+def clear_store_cache(fn):
+    """a new server process has no cached store objects; the cache may be wrapped differently in the
+    code under test (functools caches expose cache_clear, possibly on an inner function)"""
+    seen = set()
+    while fn is not None and id(fn) not in seen:
+        seen.add(id(fn))
+        cc = getattr(fn, "cache_clear", None)
+        if cc is not None:
+            cc()
+        for cell in (getattr(fn, "__closure__", None) or ()):
+            try:
+                inner = cell.cell_contents
+            except ValueError:
+                continue
+            if callable(inner) and hasattr(inner, "cache_clear"):
+                inner.cache_clear()
+        fn = getattr(fn, "__wrapped__", None)
+
+
 def make_backend(root, principal="/user/", autocreate=True, defaults=True, index_threshold=None):
     from xandikos.web import XandikosApp, XandikosBackend, open_store_from_path
 
-    open_store_from_path.cache_clear()
+    clear_store_cache(open_store_from_path)
     backend = XandikosBackend(root, index_threshold=index_threshold)
     backend._mark_as_principal(principal)
     if autocreate or defaults:
@@ -267,7 +286,7 @@ class WsgiModuleServer(WsgiServer):
         import runpy
         from xandikos.web import open_store_from_path
         from xandikos.wsgi_helpers import WellknownRedirector
-        open_store_from_path.cache_clear()
+        clear_store_cache(open_store_from_path)
         env = {"XANDIKOSPATH": self.root, "CURRENT_USER_PRINCIPAL": self.kw["principal"],
                "AUTOCREATE": "defaults" if self.kw["defaults"] else ("yes" if self.kw["autocreate"] else "no")}
         old = {k: os.environ.get(k) for k in env}
